@@ -238,9 +238,10 @@ def build(unit_path, repo, canary=False):
                 else:
                     break
             where_ = "%s:%d" % (os.path.basename(unit_path), i + 1)
-            if d in ("@closure", "@slice"):
-                # statement / closure slices are called by nobody: when their anchor is lost (code restructured) only the
-                # properties their clauses serve become undecided; the rest of the unit is still decided
+            if d in ("@closure", "@slice", "@fn", "@macrofn"):
+                # when an item's anchor is lost (code restructured beyond the rule list) only the properties its clauses serve
+                # become undecided; the rest of the unit is still decided (a caller of a skipped function fails to compile,
+                # which is again exit 2, never an alarm)
                 mark = len(u.out)
                 nclauses, nfuncs = len(u.clauses), len(u.functions)
                 try:
@@ -252,6 +253,14 @@ def build(unit_path, repo, canary=False):
                     lost = set(spec.props)
                     for c in spec.sig:
                         lost |= set(c.props)
+                    for cl_ in spec.loops.values():
+                        for c in cl_:
+                            lost |= set(c.props)
+                    for ins_ in spec.inserts:
+                        for l_ in ins_[3]:
+                            mm_ = _MARK.search(l_)
+                            if mm_ and mm_.group(2):
+                                lost |= set(x for x in mm_.group(2).split(",") if x)
                     for pp in lost:
                         u.lost_hints.setdefault(pp, []).append("%s: %s" % (where_, e))
             else:
